@@ -84,7 +84,7 @@ fn gen_depth(t: &mut Tape) -> usize {
     }
 }
 
-fn gen_spec(t: &mut Tape) -> Spec {
+pub fn gen_spec(t: &mut Tape) -> Spec {
     let header = if t.chance(1, 2) { gen_depth(t) } else { 0 };
     let aot = t.chance(1, 3);
     let key = if t.chance(1, 2) { gen_depth(t) } else { 1 };
